@@ -5,6 +5,7 @@
 package memnet
 
 import (
+	"fmt"
 	"errors"
 	"io"
 	"net"
@@ -289,6 +290,8 @@ type Listener struct {
 	once   sync.Once
 	Cap    int
 	Dialed atomic.Int64
+	// PlainClosedError: Accept on a closed listener returns a wrapped net.ErrClosed that is no *net.OpError.
+	PlainClosedError bool
 }
 
 func Listen() *Listener { return &Listener{ch: make(chan net.Conn), done: make(chan struct{})} }
@@ -298,6 +301,10 @@ func (l *Listener) Accept() (net.Conn, error) {
 	case c := <-l.ch:
 		return c, nil
 	case <-l.done:
+		if l.PlainClosedError {
+			// a listener of another package: "closed" is a wrapped net.ErrClosed, not a *net.OpError
+			return nil, fmt.Errorf("memlistener: accept: %w", net.ErrClosed)
+		}
 		return nil, opErr("accept", net.ErrClosed)
 	}
 }
